@@ -539,7 +539,7 @@ theorem timed_refreshTypes (T now : Nat) : ∀ (l : List BList) (ts : List Nat) 
 
 theorem timed_refreshActive (T : Nat) (s : State) (now : Nat) (hn : KeysNodup s.cache) (h : CacheTimed s.timers T s.cache) :
     CacheTimed (refreshActive s now).1.timers T (refreshActive s now).1.cache := by
-  have h1 := timed_refreshTypes T now (s.queriers.map (·.1)) s.timers s.cache hn h
+  have h1 := timed_refreshTypes T now (activeTypes s) s.timers s.cache hn h
   unfold refreshActive
   simp only [addTimers_cache]
   refine CacheTimed.sup h1 ?_
